@@ -167,9 +167,18 @@ func check(c Case) (out ev.Outcome) {
 					return ev.Failf("%s: rule-breaking edits %v were applied but no error is reported", cfg, c.Edits)
 				}
 				if cont {
+					// when references do not resolve, the checks that need resolved schemas (defaults, examples, and the
+					// pattern checks that live in that pass) are not run: then only the reference edits must show their message
+					unresolved := false
+					for _, e := range c.Edits {
+						unresolved = unresolved || strings.HasPrefix(e, "unresolvable")
+					}
 					for _, e := range c.Edits {
 						exp, isBreaking := expected[e]
 						if !isBreaking {
+							continue
+						}
+						if unresolved && !strings.HasPrefix(e, "unresolvable") {
 							continue
 						}
 						if (e == "overlappingPaths" || e == "overlappingPaths3") && !strict {
